@@ -11,6 +11,9 @@ import RbV.Thm.GenSrcMyersSimple
 import RbV.Thm.GenSrcMyersLong
 import RbV.Thm.GenSrcMyersLongStep
 import RbV.Lemmas.HitsClamp
+import RbV.Thm.GenSrcMyersLongNew
+import RbV.Thm.GenSrcMyersLongMatches
+import RbV.Thm.GenSrcMyersSimpleBest
 /-!
 # C09 — approximate matchers and distance functions equal the edit-distance definition
 
@@ -485,9 +488,8 @@ otherwise the deactivation loop `while last_block > 0 && states[last_block].dist
 The hypotheses are side conditions, not restrictions of the algorithm: no `dist` update wraps (`ChainOk`, `hfresh`), the
 distances stay below `2^63` so that the `isize` round trip of the activation test is exact (`hd`), the value
 `last_dist − carry` of the previous column is not negative (`hnn`), and the blocks have the lengths `States::new` assumes
-(`hblk`, `hlm`).  They are **not** yet derived from the `Band` invariant behind `myers_long_eq` (that every state a
-search reaches satisfies them is argued in docs/notes/C09.md, and sampled by the correspondence run); hence there is no
-end-to-end `…_source_exact` statement for the block-based matcher. -/
+(`hblk`, `hlm`).  They are derived from the `Band` invariant behind `myers_long_eq` in
+`myers_long_step_side_conditions_from_band` below (genlong), which gives the end-to-end `myers_long_find_all_end_source_exact`. -/
 theorem myers_long_step_source_eq_model (w : Nat) (eqv : Nat → Nat → Bool) (blks : List (List Nat)) (k a lm : Nat)
     (sts : List (RbV.Model.MyersSimple.St w)) (hw : 1 < w) (hwlt : w < 2 ^ 62) (hlm : lm ≤ w) (ha : a < 256) (hne : sts ≠ [])
     (hlen : sts.length ≤ blks.length) (hbl : blks.length < 2 ^ 63)
@@ -523,5 +525,169 @@ example : RbV.Gen.SrcMyersLong.step (w := 4) (states := [(9, 4, 1)]) (max_block 
 example : RbV.Gen.SrcMyersLong.step (w := 4) (states := [(15, 0, 4), (0, 0, 4)]) (max_block := 1) (last_m := 2) (a := 9)
     (peq := RbV.Thm.GenSrcMyersLongStep.peqL 4 eqSym [[1, 2, 3, 4], [5, 6]]) (max_dist := 1) =
     RbV.Rs.Res.ok [(15, 0, 4)] := by decide
+
+/-! ### The block-based Myers matcher end to end on the translated source text (genlong)
+
+`RbV/Gen/SrcMyersHelpers.lean` (`ceil_div`), `RbV/Gen/SrcMyersLongNew.lean` (`States::new`, `States::known_dist`, the glue
+`long::Myers::step` / `initial_state`) and `RbV/Gen/SrcMyersLongMatches.lean` (`Matches::new`, `Matches::next`, `distance`,
+`find_all_end`, `find_best_end` of the macro `impl_myers!`, read at the instance of long.rs) are regenerated by
+`tools/rs2lean_genlong.py` on every `./check C09`.  Proofs: `Thm/GenSrcMyersLongNew.lean`, `Thm/GenSrcMyersLongMatches.lean`,
+`Lemmas/MyersBest.lean`. -/
+
+/-- **`States::new(m, max_dist)`, as written**: `max(1, ⌈min(max_dist, m) / w⌉)` blocks `State::init(rows covered so far)` —
+the model's `initStates` —, `max_block = ⌈m/w⌉ − 1`, `last_m = m % w`; no panic (`ceil_div`, `- 1`, `%`, `add_state(0)`). -/
+theorem myers_long_new_source_eq_model (w : Nat) (p : List Nat) (k : Nat) (hw : 2 ≤ w) (hp : 1 ≤ p.length)
+    (h64 : p.length + w + 1 < 2 ^ 64) :
+    RbV.Gen.SrcMyersLongNew.new (w := w) (m := p.length) (max_dist := k) =
+      RbV.Rs.Res.ok (RbV.Thm.GenSrcMyersLongStep.repS
+        (RbV.Model.MyersLong.initStates w (RbV.Model.MyersLong.blocksOf w p) p.length k),
+        (RbV.Model.MyersLong.blocksOf w p).length - 1, p.length % w) :=
+  RbV.Thm.GenSrcMyersLongNew.new_eq_model w p k hw hp h64
+
+/-- the blocks of the model are laid out as `States::new` / `add_state` assume -/
+theorem myers_long_blocks_shape (w : Nat) (hw : 2 ≤ w) (p : List Nat) (hp : 1 ≤ p.length) :
+    (RbV.Model.MyersLong.blocksOf w p).length = (p.length + w - 1) / w ∧ 1 ≤ (RbV.Model.MyersLong.blocksOf w p).length ∧
+    (RbV.Model.MyersLong.blocksOf w p).length ≤ p.length ∧
+    (∀ i blk, (RbV.Model.MyersLong.blocksOf w p)[i]? = some blk →
+      blk.length = (if i = (RbV.Model.MyersLong.blocksOf w p).length - 1 ∧ p.length % w > 0 then p.length % w else w)) :=
+  RbV.Thm.GenSrcMyersLongNew.blocks_shape w hw p hp
+
+/-- **`States::known_dist()`, as written** = the model's `knownDist` -/
+theorem myers_long_known_dist_source_eq_model (w nb : Nat) (sts : List (RbV.Model.MyersSimple.St w)) (hnb : 1 ≤ nb)
+    (hlen : sts.length ≤ nb) :
+    RbV.Gen.SrcMyersLongNew.knownDist (w := w) (states := RbV.Thm.GenSrcMyersLongStep.repS sts) (max_block := nb - 1) =
+      RbV.Rs.Res.ok (RbV.Model.MyersLong.knownDist nb sts) :=
+  RbV.Thm.GenSrcMyersLongNew.knownDist_eq_model w nb sts hnb hlen
+
+/-- **every side condition of `myers_long_step_source_eq_model` follows from the band invariant**: in a state `sts` with
+`Band … P u sts` (the state of a search after the text prefix `u`, `myers_long_eq`) no `dist` update of the carry chain or of
+the freshly activated block wraps, all distances stay below `2^63`, `last_dist − carry ≥ 0`. -/
+theorem myers_long_step_side_conditions_from_band {w : Nat} (eqv : Nat → Nat → Bool) (p : List Nat) (k : Nat) (hw : 2 ≤ w)
+    (hp : 1 ≤ p.length) (h63 : p.length + w + 2 < 2 ^ 63) (P : Nat → Int) (u : List Nat)
+    (sts : List (RbV.Model.MyersSimple.St w)) (a : Nat)
+    (b : RbV.Model.MyersLong.Band eqv p k (RbV.Model.MyersLong.blocksOf w p) P u sts) :
+    sts ≠ [] ∧ sts.length ≤ (RbV.Model.MyersLong.blocksOf w p).length ∧ (RbV.Model.MyersLong.blocksOf w p).length < 2 ^ 63 ∧
+    RbV.Thm.GenSrcMyersLongStep.ChainOk eqv a (RbV.Model.MyersLong.blocksOf w p) sts 0 ∧
+    (∀ s ∈ (RbV.Model.MyersLong.advanceAll eqv a (RbV.Model.MyersLong.blocksOf w p) sts 0).1, s.dist + 1 < 2 ^ 63) ∧
+    0 ≤ (RbV.Thm.GenSrcMyersLongStep.lastDist (RbV.Model.MyersLong.advanceAll eqv a (RbV.Model.MyersLong.blocksOf w p) sts 0).1 : Int) -
+      (RbV.Model.MyersLong.advanceAll eqv a (RbV.Model.MyersLong.blocksOf w p) sts 0).2 ∧
+    (∀ blk, (RbV.Model.MyersLong.blocksOf w p)[sts.length]? = some blk →
+      RbV.Thm.GenSrcMyersLongStep.BlockOk eqv a blk
+        (RbV.Thm.GenSrcMyersLongStep.freshBlock w (RbV.Model.MyersLong.advanceAll eqv a (RbV.Model.MyersLong.blocksOf w p) sts 0).1
+          blk.length (RbV.Model.MyersLong.advanceAll eqv a (RbV.Model.MyersLong.blocksOf w p) sts 0).2)
+        (RbV.Model.MyersLong.advanceAll eqv a (RbV.Model.MyersLong.blocksOf w p) sts 0).2) :=
+  RbV.Thm.GenSrcMyersLongNew.side_conditions eqv p k hw hp h63 P u sts a b
+
+/-- **the translated `long::Myers::step` (glue → `States::step`) on every state of a search** = `stepStates` -/
+theorem myers_long_step_source_on_band {w : Nat} (eqv : Nat → Nat → Bool) (p : List Nat) (k : Nat) (hw : 2 ≤ w)
+    (hw62 : w < 2 ^ 62) (hp : 1 ≤ p.length) (h63 : p.length + w + 2 < 2 ^ 63) (P : Nat → Int) (u : List Nat)
+    (sts : List (RbV.Model.MyersSimple.St w)) (a : Nat) (ha : a < 256)
+    (b : RbV.Model.MyersLong.Band eqv p k (RbV.Model.MyersLong.blocksOf w p) P u sts) :
+    RbV.Gen.SrcMyersLongNew.step (w := w) (peq := RbV.Thm.GenSrcMyersLongStep.peqL w eqv (RbV.Model.MyersLong.blocksOf w p))
+        (states := RbV.Thm.GenSrcMyersLongStep.repS sts) (max_block := (RbV.Model.MyersLong.blocksOf w p).length - 1)
+        (last_m := p.length % w) (a := a) (max_dist := k) =
+      RbV.Rs.Res.ok (RbV.Thm.GenSrcMyersLongStep.repS (RbV.Model.MyersLong.stepStates eqv (RbV.Model.MyersLong.blocksOf w p) k a sts),
+        (RbV.Model.MyersLong.blocksOf w p).length - 1, p.length % w) :=
+  RbV.Thm.GenSrcMyersLongNew.step_band eqv p k hw hw62 hp h63 P u sts a ha b
+
+/-- **one call of `Matches::next` of the block-based matcher, as written**, on any state a search reaches (`InvL`: the band
+invariant): no panic; `None` exactly when the text is exhausted and the model lists no further pair, else the model's next pair. -/
+theorem myers_long_next_source_eq_model (w : Nat) (eqv : Nat → Nat → Bool) (p : List Nat) (k : Nat) (hw : 2 ≤ w)
+    (hw62 : w < 2 ^ 62) (hp : 1 ≤ p.length) (h63 : p.length + w + 2 < 2 ^ 63) (rest : List Nat) (i : Nat)
+    (s : List (RbV.Model.MyersSimple.St w)) (inv : RbV.Thm.GenSrcMyersLongMatches.InvL w eqv p k s)
+    (hb : ∀ c ∈ rest, c < 256) (h64 : i + rest.length < 2 ^ 64) :
+    ∃ r' tx' o, RbV.Thm.GenSrcMyersLongMatches.nextR w eqv p k (RbV.Thm.GenSrcMyersLongMatches.repL w p s) (rest, i) =
+        RbV.Rs.Res.ok (r', tx', o) ∧
+      RbV.Thm.GenSrcScanD.StepSpec (RbV.Thm.GenSrcMyersLongMatches.stepO w eqv p k) (RbV.Thm.GenSrcMyersLongMatches.InvL w eqv p k)
+        (fun _ s => RbV.Thm.GenSrcMyersLongMatches.repL w p s) rest i s r' tx' (o.map some) :=
+  RbV.Thm.GenSrcMyersLongMatches.next_eq_model w eqv p k hw hw62 hp h63 rest i s inv hb h64
+
+/-- **the block-based Myers search, as written in the source, is exact** — for every word width `w ≥ 2`: `Matches::new` (what
+`find_all_end` calls; `States::new`) then `next` until `None` (`long::Myers::step` → `States::step` → `advance_block`,
+`add_state`; `known_dist`), run on the per-block tables the constructor stores (`peqL`: one `Peq` per chunk of `w` pattern
+symbols) never panics, never runs out of loop fuel and yields exactly `hits (unitW eqv) p t k` — every pattern length ≥ 1
+(any number of blocks), equivalence, byte text and `k` (`k = usize::MAX` included: `saturating_add`). -/
+theorem myers_long_find_all_end_source_exact_every_width (w : Nat) (eqv : Nat → Nat → Bool) (p t : List Nat) (k : Nat)
+    (hw : 2 ≤ w) (hw62 : w < 2 ^ 62) (hp : 1 ≤ p.length) (h63 : p.length + w + 2 < 2 ^ 63) (hb : ∀ c ∈ t, c < 256)
+    (h64 : t.length < 2 ^ 64) :
+    RbV.Thm.GenSrcMyersLongMatches.findAllSrc w (RbV.Thm.GenSrcMyersLongStep.peqL w eqv (RbV.Model.MyersLong.blocksOf w p))
+      p.length t k = RbV.Rs.Res.ok (hits (unitW eqv) p t k) :=
+  RbV.Thm.GenSrcMyersLongMatches.findAllSrc_eq_hits w eqv p t k hw hw62 hp h63 hb h64
+
+/-- … at the four word types rust-bio instantiates (`u8`, `u16`, `u32`, `u64`), pattern length below `2^62` -/
+theorem myers_long_find_all_end_source_exact (w : Nat) (hw : w = 8 ∨ w = 16 ∨ w = 32 ∨ w = 64) (eqv : Nat → Nat → Bool)
+    (p t : List Nat) (k : Nat) (hp : 1 ≤ p.length) (hp62 : p.length < 2 ^ 62) (hb : ∀ c ∈ t, c < 256) (h64 : t.length < 2 ^ 64) :
+    RbV.Thm.GenSrcMyersLongMatches.findAllSrc w (RbV.Thm.GenSrcMyersLongStep.peqL w eqv (RbV.Model.MyersLong.blocksOf w p))
+      p.length t k = RbV.Rs.Res.ok (hits (unitW eqv) p t k) :=
+  myers_long_find_all_end_source_exact_every_width w eqv p t k (by omega) (by omega) hp (by omega) hb h64
+
+/-- **`long::Myers::distance`, as written** (`max_dist = usize::MAX`, running minimum of `known_dist()`): the minimum of the last
+row of the Sellers matrix — the `d` of `best_spec` — for every non-empty text; `usize::MAX` for the empty text -/
+theorem myers_long_distance_source_exact (w : Nat) (eqv : Nat → Nat → Bool) (p t : List Nat) (hw : 2 ≤ w) (hw62 : w < 2 ^ 62)
+    (hp : 1 ≤ p.length) (h63 : p.length + w + 2 < 2 ^ 63) (hb : ∀ c ∈ t, c < 256) :
+    RbV.Gen.SrcMyersLongMatches.distance (w := w)
+        (peq := RbV.Thm.GenSrcMyersLongStep.peqL w eqv (RbV.Model.MyersLong.blocksOf w p)) (m := p.length) (text := t) =
+      RbV.Rs.Res.ok (((firstMin 0 (lastRow (unitW eqv) p t)).map (·.2)).getD (2 ^ 64 - 1)) :=
+  RbV.Thm.GenSrcMyersLongMatches.distance_eq_spec w eqv p t hw hw62 hp h63 hb
+
+/-- **`long::Myers::find_best_end`, as written** (`find_all_end(text, usize::MAX).min_by_key(|&(_, dist)| dist).unwrap()`): the
+pair `(j, d)` of `best_spec` (minimum over the end positions, first on ties); the empty text panics (`unwrap` of `None`) -/
+theorem myers_long_find_best_end_source_exact (w : Nat) (eqv : Nat → Nat → Bool) (p t : List Nat) (hw : 2 ≤ w)
+    (hw62 : w < 2 ^ 62) (hp : 1 ≤ p.length) (h63 : p.length + w + 2 < 2 ^ 63) (hb : ∀ c ∈ t, c < 256) (h64 : t.length < 2 ^ 64) :
+    RbV.Gen.SrcMyersLongMatches.findBestEnd (w := w)
+        (peq := RbV.Thm.GenSrcMyersLongStep.peqL w eqv (RbV.Model.MyersLong.blocksOf w p)) (m := p.length) (text := t) =
+      RbV.Rs.expect (firstMin 0 (lastRow (unitW eqv) p t)) :=
+  RbV.Thm.GenSrcMyersLongMatches.findBestEnd_eq_spec w eqv p t hw hw62 hp h63 hb h64
+
+-- non-vacuity: pattern 1 2 3 4 5 6 in blocks of 4 bits (two blocks, the second one partial), k = 1: the translated search on
+-- the constructor's tables, evaluated; the theorem instantiated at `w = 8` with a three-block pattern
+example : RbV.Gen.SrcMyersLongNew.new (w := 4) (m := 6) (max_dist := 1) = RbV.Rs.Res.ok ([(15, 0, 4)], 1, 2) := by decide
+example : RbV.Gen.SrcMyersLongNew.new (w := 4) (m := 6) (max_dist := 5) = RbV.Rs.Res.ok ([(15, 0, 4), (15, 0, 6)], 1, 2) := by decide
+example : RbV.Thm.GenSrcMyersLongMatches.findAllSrc 4 (RbV.Thm.GenSrcMyersLongStep.peqL 4 eqSym [[1, 2, 3, 4], [5, 6]]) 6
+    [1, 2, 3, 4, 5, 6, 9, 1, 2, 3, 4, 6] 1 = RbV.Rs.Res.ok (hits (unitW eqSym) [1, 2, 3, 4, 5, 6] [1, 2, 3, 4, 5, 6, 9, 1, 2, 3, 4, 6] 1) := by decide
+example : RbV.Gen.SrcMyersLongMatches.findBestEnd (w := 4) (peq := RbV.Thm.GenSrcMyersLongStep.peqL 4 eqSym [[1, 2, 3, 4], [5, 6]])
+    (m := 6) (text := [9, 1, 2, 3, 4, 6, 1, 2, 3, 4, 6]) = RbV.Rs.expect (firstMin 0 (lastRow (unitW eqSym) [1, 2, 3, 4, 5, 6] [9, 1, 2, 3, 4, 6, 1, 2, 3, 4, 6])) := by decide
+example : RbV.Gen.SrcMyersLongMatches.findBestEnd (w := 4) (peq := RbV.Thm.GenSrcMyersLongStep.peqL 4 eqSym [[1, 2, 3, 4], [5, 6]])
+    (m := 6) (text := []) = RbV.Rs.Res.panic := by decide
+example : RbV.Gen.SrcMyersLongMatches.distance (w := 4) (peq := RbV.Thm.GenSrcMyersLongStep.peqL 4 eqSym [[1, 2, 3, 4], [5, 6]])
+    (m := 6) (text := [9, 1, 2, 3, 4, 6, 1]) = RbV.Rs.Res.ok 1 := by decide
+example : ∃ l, RbV.Thm.GenSrcMyersLongMatches.findAllSrc 8
+    (RbV.Thm.GenSrcMyersLongStep.peqL 8 eqSym (RbV.Model.MyersLong.blocksOf 8 (List.range 20))) 20 [3, 4, 5] 18 = RbV.Rs.Res.ok l :=
+  ⟨_, myers_long_find_all_end_source_exact 8 (Or.inl rfl) eqSym (List.range 20) [3, 4, 5] 18 (by decide) (by decide) (by decide) (by decide)⟩
+
+/-! ### `distance` / `find_best_end` of the single-word matcher on the translated source text (genlong)
+
+`RbV/Gen/SrcMyersSimpleBest.lean`: the same text of `impl_myers!` read at the instance of simple.rs. -/
+
+/-- **`Myers::distance`, as written** (single word; `max_dist = DistType::MAX`): the `d` of `best_spec` for every non-empty text
+(`DistType::MAX` for the empty one) — every word width `w ≥ 2`, `DistType` width with `|p| < 2^wd` -/
+theorem myers_distance_source_exact (w wd : Nat) (eqv : Nat → Nat → Bool) (p t : List Nat) (hw1 : 1 < w) (hm1 : 1 ≤ p.length)
+    (hw : p.length ≤ w) (hwd : p.length < 2 ^ wd) (h64p : p.length + 1 < 2 ^ 64) (hb : ∀ c ∈ t, c < 256) :
+    RbV.Gen.SrcMyersSimpleBest.distance (w := w) (wd := wd) (peq := RbV.Thm.GenSrcMyersSimple.peqTab w eqv p)
+        (bound := 2 ^ (p.length - 1)) (m := p.length) (text := t) =
+      RbV.Rs.Res.ok (((firstMin 0 (lastRow (unitW eqv) p t)).map (·.2)).getD (RbV.Rs.maxVal wd)) :=
+  RbV.Thm.GenSrcMyersSimpleBest.distance_eq_spec w wd eqv p t hw1 hm1 hw hwd h64p hb
+
+/-- **`Myers::find_best_end`, as written** (single word): the pair `(j, d)` of `best_spec` — minimum over the end positions,
+first on ties (`Iterator::min_by_key`); the empty text panics (`unwrap` of `None`) -/
+theorem myers_find_best_end_source_exact (w wd : Nat) (eqv : Nat → Nat → Bool) (p t : List Nat) (hw1 : 1 < w)
+    (hm1 : 1 ≤ p.length) (hw : p.length ≤ w) (hwd : p.length < 2 ^ wd) (h64p : p.length + 1 < 2 ^ 64)
+    (hb : ∀ c ∈ t, c < 256) (h64 : t.length < 2 ^ 64) :
+    RbV.Gen.SrcMyersSimpleBest.findBestEnd (w := w) (wd := wd) (peq := RbV.Thm.GenSrcMyersSimple.peqTab w eqv p)
+        (bound := 2 ^ (p.length - 1)) (m := p.length) (text := t) =
+      RbV.Rs.expect (firstMin 0 (lastRow (unitW eqv) p t)) :=
+  RbV.Thm.GenSrcMyersSimpleBest.findBestEnd_eq_spec w wd eqv p t hw1 hm1 hw hwd h64p hb h64
+
+example : RbV.Gen.SrcMyersSimpleBest.findBestEnd (w := 8) (wd := 8) (peq := [0, 0b101, 0b010, 0]) (bound := 0b100) (m := 3)
+    (text := [3, 1, 3, 1, 2, 1, 1, 2, 1]) = RbV.Rs.Res.ok (5, 0) := by decide
+example : RbV.Gen.SrcMyersSimpleBest.distance (w := 8) (wd := 8) (peq := [0, 0b101, 0b010, 0]) (bound := 0b100) (m := 3)
+    (text := [3, 1, 3, 1, 3]) = RbV.Rs.Res.ok 1 := by decide
+example : RbV.Gen.SrcMyersSimpleBest.distance (w := 8) (wd := 8) (peq := [0, 0b101, 0b010, 0]) (bound := 0b100) (m := 3)
+    (text := []) = RbV.Rs.Res.ok 255 := by decide
+
+/-! The constructors (`new` / `new_ambig` of simple.rs and long.rs, `MyersBuilder`) are translated as well (`Gen/SrcMyersSimpleNew.lean`,
+`Gen/SrcMyersLongCtor.lean`, `Gen/SrcMyersBuilder.lean`); their theorems (`myers_new_source_eq_model`, …) are word-level and
+shape-dependent (a property-preserving change of the wildcard masks above the pattern bits falsifies them: seeded C09-H2), so they
+live in the **soft** module `Thm/GenSrcMyersNewSoft.lean` (built by `tools/gen_tables.py`, failure = note). -/
 
 end RbV.Thm.C09
